@@ -75,7 +75,7 @@ def run(ctx):
     ctx.ob('R32.3', c.n, '`end` starts as bytes.len()', len(inits) == 1 and inits[0]['call'].is_('re:::len$'), f'{inits}', where(c, c.line))
     ctx.ob('R32.3', c.n, 'exactly one shrinking assignment to `end` (end - 1)', len(shrink) == 1 and len(dec) == 1, f'{len(dec)} assignments', where(c, c.line))
     for bi, s, d in shrink:
-      gs = guard_strings(c, bi)
+      gs = guard_strings(c, bi, forms=True)
       okf = 'Gt(end,0)==True' in gs and any(re.match(r'^Eq\(num::to_le_bytes\(self\.0\)\.\[\],0\)==True$', g) for g in gs)
       ctx.ob('R32.3', c.n, 'end is decremented only under end > 0 ∧ bytes[end-1] == 0', okf, f'{gs}', where(c, s['l']))
     ir = c.calls_to('re:array::<impl std::ops::Index for \\[T; N\\]>::index$')
